@@ -17,18 +17,19 @@ import (
 // objects made with go/types' own constructors, inserted into the scope the
 // type checker would have used, so Parent() is what the checker sets).
 const (
-	vkPkgType    = iota // type N ... at package scope
-	vkLocalType         // type N ... inside a function body
-	vkTypeParam         // func f[N any]()
-	vkAlias             // type N = int at package scope
-	vkPkgConst          // const N = 1 at package scope
-	vkLocalConst        // const N = 1 inside a function body
-	vkPkgFunc           // func N() at package scope
-	vkInitFunc          // func init() (not in any scope)
-	vkMethodVal         // func (T) N()
-	vkMethodPtr         // func (*T) N()
-	vkVar               // var N int at package scope
-	vkNil               // the package clause identifier (nil object)
+	vkPkgType     = iota // type N ... at package scope
+	vkLocalType          // type N ... inside a function body
+	vkTypeParam          // func f[N any]()
+	vkAlias              // type N = int at package scope
+	vkPkgConst           // const N = 1 at package scope
+	vkLocalConst         // const N = 1 inside a function body
+	vkPkgFunc            // func N() at package scope
+	vkInitFunc           // func init() (not in any scope)
+	vkMethodVal          // func (T) N()
+	vkMethodPtr          // func (*T) N()
+	vkVar                // var N int at package scope
+	vkIfaceMethod        // a method of an interface type literal (receiver: the unnamed interface)
+	vkNil                // the package clause identifier (nil object)
 	vkNumKinds
 )
 
@@ -125,6 +126,9 @@ func vTables(k int, withGeneric bool) {
 			v := types.NewVar(pos, tpkg, name, types.Typ[types.Int])
 			tpkg.Scope().Insert(v)
 			obj = v
+		case vkIfaceMethod:
+			recv := types.NewVar(pos, tpkg, "", types.NewInterfaceType(nil, nil))
+			obj = types.NewFunc(pos, tpkg, name, types.NewSignatureType(recv, nil, nil, nil, nil, false))
 		case vkNil:
 			obj = nil
 		}
